@@ -12,7 +12,10 @@ import (
 	sdk "github.com/cosmos/cosmos-sdk/types"
 	authtypes "github.com/cosmos/cosmos-sdk/x/auth/types"
 
+	beacontypes "github.com/unification-com/mainchain/x/beacon/types"
 	enttypes "github.com/unification-com/mainchain/x/enterprise/types"
+	streamtypes "github.com/unification-com/mainchain/x/stream/types"
+	wrkchaintypes "github.com/unification-com/mainchain/x/wrkchain/types"
 )
 
 // ---------------------------------------------------------------------------------------------
@@ -32,13 +35,51 @@ func (m *monC13) BeforeTx(w *World, tx *TxCtx) {
 	m.preFull = fullModuleDigest(w, ctx)
 }
 
-// namedSigner returns the address a custom message names as the party it belongs to.
+// namedSigner returns the party a custom message belongs to according to the *statement* (not
+// according to the message's own GetSigners, which is part of the code under test): the purchaser
+// for raising an order, the signer field for decisions and whitelist changes, the owner for
+// WRKChain/BEACON operations, the stream sender for create/top-up/flow-rate/cancel, the stream
+// receiver for claims, the authority for parameter updates.
 func namedSigner(msg sdk.Msg) string {
-	s := msg.GetSigners()
-	if len(s) == 0 {
-		return ""
+	switch x := msg.(type) {
+	case *enttypes.MsgUndPurchaseOrder:
+		return x.Purchaser
+	case *enttypes.MsgProcessUndPurchaseOrder:
+		return x.Signer
+	case *enttypes.MsgWhitelistAddress:
+		return x.Signer
+	case *enttypes.MsgUpdateParams:
+		return x.Authority
+	case *wrkchaintypes.MsgRegisterWrkChain:
+		return x.Owner
+	case *wrkchaintypes.MsgRecordWrkChainBlock:
+		return x.Owner
+	case *wrkchaintypes.MsgPurchaseWrkChainStateStorage:
+		return x.Owner
+	case *wrkchaintypes.MsgUpdateParams:
+		return x.Authority
+	case *beacontypes.MsgRegisterBeacon:
+		return x.Owner
+	case *beacontypes.MsgRecordBeaconTimestamp:
+		return x.Owner
+	case *beacontypes.MsgPurchaseBeaconStateStorage:
+		return x.Owner
+	case *beacontypes.MsgUpdateParams:
+		return x.Authority
+	case *streamtypes.MsgCreateStream:
+		return x.Sender
+	case *streamtypes.MsgTopUpDeposit:
+		return x.Sender
+	case *streamtypes.MsgUpdateFlowRate:
+		return x.Sender
+	case *streamtypes.MsgCancelStream:
+		return x.Sender
+	case *streamtypes.MsgClaimStream:
+		return x.Receiver
+	case *streamtypes.MsgUpdateParams:
+		return x.Authority
 	}
-	return s[0].String()
+	return ""
 }
 
 func (m *monC13) AfterTx(w *World, tx *TxCtx) {
